@@ -32,6 +32,7 @@ type Setup struct {
 	ShareBase int              `json:"share_base,omitempty"`
 	Pods      []string         `json:"pods"`
 	Nodes     []world.NodeSpec `json:"nodes"`
+	PoolSize  int              `json:"-"` // capacity of calcium's task pool (0: the world's default); set by the runner, not generated
 }
 
 // SetNodeSpec is a set-node request. Resource changes are deltas that never push capacity below
@@ -168,7 +169,7 @@ func genSetNode(t *rapid.T, s Setup) *SetNodeSpec {
 // ------------------------------------------------------------------------------- building
 
 func buildWorld(s Setup) (*world.World, error) {
-	w := world.New(topT, world.Options{Redis: s.Redis, ShareBase: s.ShareBase})
+	w := world.New(topT, world.Options{Redis: s.Redis, ShareBase: s.ShareBase, PoolSize: s.PoolSize})
 	w.IC.Disable(true)
 	for _, p := range s.Pods {
 		if err := w.AddPod(p); err != nil {
